@@ -19,7 +19,8 @@ REQUIRED_THEOREMS = ['preprocess_length_of', 'recodePairs_single', 'preprocess_l
                      'percent_posmap_monotone', 'percent_restore_span', 'mergeAllTokens_text', 'model_end',
                      'mergeModPrefix_span', 'mergeModPrefix_leading_blank', 'modifier_push_pop',
                      'modifier_push_pop_suffix', 'modifier_push_pop_index_counterexample', 'phoneRespan_span',
-                     'mergedExtract_spans', 'parser_push_pop', 'parser_pop_without_reset_restores_twice', 'parser_push_pop_equal_around_counterexample', 'parser_push_pop_index_counterexample',
+                     'mergedExtract_spans', 'mergeAllTokens_nonempty', 'mergeAllTokens_empty_token_witness', 'mergedExtract_nonempty',
+                     'datetime_path_span', 'spanOK_of_preprocessed_slice', 'parser_push_pop', 'parser_pop_without_reset_restores_twice', 'parser_push_pop_equal_around_counterexample', 'parser_push_pop_index_counterexample',
                      # RTV.Props.C01DtExtract: the date-time sub-extractors' token arithmetic
                      'subextractor_results_ok', 'dateBasic_inside', 'numberWithMonth_inside', 'extendWdYear_inside', 'extendWdYear_overrun_witness', 'agoLater_inside', 'relDurLoop_inside', 'inPrefix_reversed_witness', 'numberWithUnit_inside', 'numberWithUnitAndSuffix_inside', 'mergeMultipleDuration_inside', 'tagInequality_inside', 'mdtPairTok_inside', 'mdtLoop_mem', 'mdtWiden_inside', 'todBeforeOne_inside', 'todAfterOne_inside', 'specialOne_inside', 'rangePairTok_inside', 'rangeLoop_mem', 'range_from_leading_blank', 'rangePairTok_time_after_between_witness', 'matchDurationOne_inside_partial', 'matchDuration_suffix_overrun',
                      # repaired variants at full strength + the pre-fix regressions (findings/dtextract/*.diff)
